@@ -321,6 +321,12 @@ pub fn test_big(c: &BigAtomCase) -> Verdict {
                 o => return Err(format!("length function gave {o:?} expected {expect_len}")),
             }
         }
+        // the object-cache length function (used without serializing) must report the same length
+        let mut oc = ObjectCache::new(serialized_length);
+        match oc.get_or_calculate(&a, &node, None) {
+            Some(l) if *l == expect_len => {}
+            o => return Err(format!("ObjectCache<serialized_length> = {o:?}, the serialization has {expect_len} bytes")),
+        }
         let mut a2 = Allocator::new();
         let back = node_from_bytes(&mut a2, &bytes).map_err(|e| format!("decode: {e}"))?;
         let back_atom = if c.wrap {
@@ -392,7 +398,7 @@ pub fn run(r: &mut Runner) {
     r.require_label("width: overlong", 1000);
     r.require_label("width: minimal", 1000);
     // whole atoms at the large boundaries
-    let mut lens: Vec<u64> = vec![0x1fff, 0x2000, 0x2001, 0xfffff, 0x100000, 0x100001];
+    let mut lens: Vec<u64> = vec![0x3f, 0x40, 0x1fff, 0x2000, 0x2001, 0x4000, 0xffff, 0x10000, 0x10001, 0x40000, 0xfffff, 0x100000, 0x100001];
     if r.tier == Tier::Thorough {
         lens.extend([0x7ffffff, 0x8000000, 0x8000001]);
     }
